@@ -251,7 +251,8 @@ class Synth(object):
             self.row('R_AOTH', Obj_ID=self.obj[r['oth']], Rel_ID=rid, OIR_ID=to, Mult=r['tm'], Cond=r['tc'], Txt_Phrs=r.get('tph', ''))
             lo = self.oir(r['link'], rid)
             self.row('R_RGO', Obj_ID=self.obj[r['link']], Rel_ID=rid, OIR_ID=lo)
-            self.row('R_ASSR', Obj_ID=self.obj[r['link']], Rel_ID=rid, OIR_ID=lo, Mult=0)
+            # (lm: the link class may be marked {*}; pyxtuml's associations have no place for it)
+            self.row('R_ASSR', Obj_ID=self.obj[r['link']], Rel_ID=rid, OIR_ID=lo, Mult=r.get('lm', 0))
             self.refs(rid, r['link'], lo, r['one'], oo, ooid, r['okeys'])
             self.refs(rid, r['link'], lo, r['oth'], to, toid, r['tkeys'])
         else:
